@@ -386,19 +386,41 @@ _c("C10",
    "Coq proof (path equality on the characterised safe fragment by induction, refutation witnesses) + model/implementation "
    "correspondence in vm_compute")
 _c("C11",
-   "Coq theorems (Props/C11.v, closed under the global context) over the value universe and an executable model of Structure.__eq__, "
-   "__str__ and __hash__ (Struct/EqHash.v; hash = an uninterpreted function of the string): Python == on model values is reflexive, "
+   "Coq theorems (Props/C11.v, closed under the global context). (1) Value level, executable model of Structure.__eq__, __str__ and "
+   "__hash__ (Struct/EqHash.v; hash = an uninterpreted function of the string): Python == on model values is reflexive, "
    "symmetric and transitive across int/float/bool/Decimal, sets and dicts compared order-free (C11_value_equivalence, strong induction "
    "with a pigeonhole lemma, duplicate-free containers as explicit hypothesis), instance equality likewise and iff field-wise equality "
    "of the values read back (C11_equivalence, C11_eq_fieldwise); for canonical spellings equal instances have the same string hence "
    "hash (C11_hash_char); copy/deepcopy equal with the same string, pickle under pickle_safe (C11_copy_eq); the unconditional "
    "eq=>hash and pickle statements are Definitions refuted by witnesses (insertion order, numeric spelling, set vs frozenset, None vs "
-   "absent, lost internal state). inst_eq / inst_str / hash equality are compared with real ==, str, hash inside Coq on generated "
-   "pairs and triples; copies and their independence under mutation histories are checked on the implementation.",
-   "Trusted: Coq kernel + vm_compute; EqHash.v hand-written; number/str/enum repr and str hash as Section-variable oracles; deepcopy is "
-   "the identity in the value model (independence is decided on the implementation only).",
-   "Coq proof (equivalence-relation and hash-coherence theorems by strong induction over values) + model/implementation "
-   "correspondence in vm_compute")
+   "absent, lost internal state). (2) Object level, a heap model with object identity (Struct/CopyHeap.v): CPython's deepcopy of the "
+   "built-in containers, Structure.__deepcopy__ and the wrappers' __deepcopy__ PARAMETRISED by a copy policy that "
+   "harness/genmods/copy_sites.py re-reads from the source on every run (Gen/CopySites.v: what is deep-copied, what is re-used, under "
+   "which isinstance test; fails closed to UnknownPol/TOther): under a policy that re-uses only values of deeply immutable types the "
+   "copy extends the heap without writing it, denotes the same value, and shares no mutable object with the original "
+   "(C11_deepcopy_separated, induction on the copy); separation is an invariant of EVERY interleaved history of operations of the two "
+   "holders - allocation, in-place change of any mutable object a holder can reach, keeping references - and each operation leaves "
+   "the other instance's value unchanged (C11_separated_frames, induction on the history); both instantiated for the policy of the "
+   "current source (C11_deepcopy_independent; stops compiling when an edit makes the policy unsafe) and for the pickle round trip "
+   "(C11_pickle_independent); a policy re-using a type whose instances can hold mutable objects is refuted by a computed witness "
+   "(C11_unsafe_policy_witness); copy.copy is value-equal and shares (C11_shallow_copy); the executable separation check is sound "
+   "(C11_separation_check_sound). Tie to the code: inst_eq / inst_str / hash equality compared with real ==, str, hash inside Coq on "
+   "generated pairs and triples; the OBJECT GRAPHS (by id()) of generated instances and of a deterministic lattice of value shapes "
+   "(chains of tuple/list/deque/dict/set/frozenset ending in a nested Structure or numbers; held by a typed field, an Anything field, an "
+   "undeclared attribute) and of their copy.copy / deepcopy / pickle copies are emitted as heaps: inside Coq the model's copy under the "
+   "generated policy must have the observed value and share the observed mutable objects, and separatedb is evaluated on the observed "
+   "graph. On the implementation: all value clauses; no mutable object reachable from both an instance and its deep/unpickled copy "
+   "(wrapper->owner edges included), reported after an actual change through the shared object's own interface was seen on the other "
+   "instance; lock-step histories (setattr, wrapper mutators) and lock-step changes of every mutable object at any depth against a "
+   "regularly constructed instance.",
+   "Trusted: Coq kernel + vm_compute; EqHash.v and CopyHeap.v hand-written (CopyHeap's policy generated); number/str/enum repr and str "
+   "hash as Section-variable oracles; the recogniser copy_sites.py; CPython's deepcopy/pickle on built-ins as modelled (tree copy, no "
+   "memo-preserved sharing inside one instance); an ImmutableStructure is a value (C04); which instance a wrapper is bound to is not "
+   "in the heap model (checked on the implementation: owner edges, lock-step wrapper mutators); __getstate__/__eq__ are hand-modelled "
+   "and tied by correspondence only.",
+   "Coq proof (equivalence-relation and hash-coherence theorems by strong induction over values; separation of a deep copy by "
+   "induction on the copy and its preservation by induction over interleaved mutation histories, parametric in a copy policy "
+   "generated from the source) + model/implementation correspondence in vm_compute")
 
 _c("C04",
    "Coq theorems (Props/C04.v, closed under the global context) over a capability model (Struct/Handles.v): the world is the internal "
